@@ -371,11 +371,27 @@ pub mod verif_hooks {
         )
     }
 
-    /// One call of the private `propagate_attachment_offsets`.
+    /// One call of the private `propagate_attachment_offsets` with the budget `position_finish_offsets` passes.
     pub fn propagate(pos: &[P], len: usize, i: usize, direction: Direction) -> Vec<P> {
+        propagate_level(pos, len, i, direction, MAX_NESTING_LEVEL)
+    }
+
+    /// One call of the private `propagate_attachment_offsets` with an explicit nesting budget.
+    pub fn propagate_level(
+        pos: &[P],
+        len: usize,
+        i: usize,
+        direction: Direction,
+        nesting_level: usize,
+    ) -> Vec<P> {
         let mut v: Vec<GlyphPosition> = pos.iter().map(|p| mk_pos(*p)).collect();
-        propagate_attachment_offsets(&mut v, len, i, direction, MAX_NESTING_LEVEL);
+        propagate_attachment_offsets(&mut v, len, i, direction, nesting_level);
         v.iter().map(rd_pos).collect()
+    }
+
+    /// `MAX_NESTING_LEVEL`, the budget `position_finish_offsets` hands to every top-level call.
+    pub fn max_nesting_level() -> usize {
+        MAX_NESTING_LEVEL
     }
 
     fn mk_buffer(pos: &[P], len: usize, direction: Direction) -> hb_buffer_t {
